@@ -184,3 +184,15 @@ Proof.
   - apply flags_spec_lemma; [reflexivity | reflexivity].
   - intros H. apply flags_spec_lemma in H; [discriminate | reflexivity].
 Qed.
+
+(** ** Flags are invariant under shifting (bound-variable indices are not flagged). *)
+From Chalk Require Import Ir.Fold.
+
+Lemma flags_shift_in : forall t n k, flags (shift_in n k t) = flags t.
+Proof.
+  induction t as [s d i | d i c IH | h cs IH] using tm_ind'; intros n k; cbn [shift_in].
+  - destruct (k <=? d); [destruct s |]; reflexivity.
+  - destruct (k <=? d); reflexivity.
+  - cbn [flags own_flags]. f_equal. rewrite map_map. f_equal. apply map_ext_in. intros x Hx.
+    rewrite Forall_forall in IH. apply IH. assumption.
+Qed.
